@@ -4,14 +4,17 @@ package c05
 import (
 	"archive/zip"
 	"bytes"
+	"crypto/sha256"
 	"encoding/json"
 	"fmt"
+	"io"
 	"os"
 	"path/filepath"
 	"sort"
 	"strconv"
 	"strings"
 	"sync/atomic"
+	"verif/internal/coop"
 
 	"golang.org/x/mod/module"
 	modzip "golang.org/x/mod/zip"
@@ -28,11 +31,12 @@ type caseT struct {
 	GoMod   string   `json:"root_go_mod_quoted"`
 	ModPath string   `json:"module_path"`
 	Version string   `json:"version"`
-	Size    string   `json:"declared_sizes"` // honest | smaller | larger
+	Size    string   `json:"declared_sizes"`         // honest | smaller | larger
+	Shape   int      `json:"reader_shape,omitempty"` // memfile.File.Shape
 }
 
 func (c caseT) key() string {
-	return fmt.Sprintf("%v:%v:%s:%s@%s:%s", c.Paths, c.Modes, c.GoMod, c.ModPath, c.Version, c.Size)
+	return fmt.Sprintf("%v:%v:%s:%s@%s:%s:shape%d", c.Paths, c.Modes, c.GoMod, c.ModPath, c.Version, c.Size, c.Shape)
 }
 
 type mvT struct {
@@ -78,8 +82,15 @@ func walk(dir string) (map[string]string, error) {
 	return out, err
 }
 
-func one(scratch string, paths []string, modes []zipref.Mode, goMod string, mv mvT, size string) (msg string, created bool) {
+func one(scratch string, paths []string, modes []zipref.Mode, goMod string, mv mvT, size string, shape int) (msg string, created bool) {
 	_, zf := zipx.MakeList(paths, modes, goMod)
+	if shape != 0 {
+		for i, f := range zf {
+			mf := f.(memfile.File)
+			mf.Shape = shape
+			zf[i] = mf
+		}
+	}
 	if size != "honest" {
 		for i, f := range zf {
 			mf := f.(memfile.File)
@@ -317,23 +328,31 @@ func Run(r *fw.Run) {
 						if size != "honest" && (mi > 0 || vi > 0) {
 							continue
 						}
-						l.States++
-						l.Transitions++
-						l.Execs++
-						msg, created := one(scratch, paths, modes, gm, mv, size)
-						if created {
-							l.Nontrivial++
-							l.Outcomes["created:"+size]++
-						} else {
-							l.Outcomes["refused:"+size]++
+						// how the files' readers deliver their content: every shape for the plain variant of a
+						// list, one (rotating) shape elsewhere
+						shapes := []int{(len(paths) + vi + mi) % memfile.Shapes}
+						if size == "honest" && vi == 0 && mi == 0 && len(paths) <= 4 {
+							shapes = []int{0, 1, 2, 3, 4, 5}
 						}
-						if msg != "" {
-							ms := make([]int, len(modes))
-							for k, x := range modes {
-								ms[k] = int(x)
+						for _, shape := range shapes {
+							l.States++
+							l.Transitions++
+							l.Execs++
+							msg, created := one(scratch, paths, modes, gm, mv, size, shape)
+							if created {
+								l.Nontrivial++
+								l.Outcomes["created:"+size]++
+							} else {
+								l.Outcomes["refused:"+size]++
 							}
-							c := caseT{Paths: q(paths), Modes: ms, GoMod: strconv.QuoteToASCII(gm), ModPath: mv.path, Version: mv.vers, Size: size}
-							r.Violation(c.key(), msg, c)
+							if msg != "" {
+								ms := make([]int, len(modes))
+								for k, x := range modes {
+									ms[k] = int(x)
+								}
+								c := caseT{Paths: q(paths), Modes: ms, GoMod: strconv.QuoteToASCII(gm), ModPath: mv.path, Version: mv.vers, Size: size, Shape: shape}
+								r.Violation(c.key(), msg, c)
+							}
 						}
 					}
 				}
@@ -349,14 +368,121 @@ func Run(r *fw.Run) {
 	if p := memfile.Peak.Load(); p > 16*4 {
 		r.Violation("resource:handles-peak", fmt.Sprintf("up to %d file handles were open at once with 16 workers: Create keeps files open", p), nil)
 	}
+	overlapPart(r, "")
 	r.Sample(caseT{Paths: q([]string{"go.mod", "sub/x.go", "vendor/p/x.go"}), Modes: []int{0, 0, 0}, GoMod: strconv.QuoteToASCII(zipx.GoMods[2]), ModPath: "example.com/m/v2", Version: "v2.0.0", Size: "honest"})
 	_ = strings.Join
+}
+
+// ---------------------------------------------------------------- overlapping calls
+
+type yieldFile struct {
+	memfile.File
+	yield     func()
+	readYield bool // also yield once the first Read has filled the caller's buffer
+}
+
+type yieldHandle struct {
+	io.ReadCloser
+	yield func()
+	did   bool
+}
+
+func (h *yieldHandle) Read(p []byte) (int, error) {
+	n, err := h.ReadCloser.Read(p)
+	if !h.did {
+		// the buffer now holds this file's bytes and the caller has not looked at them yet
+		h.did = true
+		h.yield()
+	}
+	return n, err
+}
+
+func (f yieldFile) Open() (io.ReadCloser, error) {
+	f.yield()
+	rc, err := f.File.Open()
+	if err != nil {
+		return nil, err
+	}
+	if !f.readYield {
+		return rc, nil
+	}
+	return &yieldHandle{ReadCloser: rc, yield: f.yield}, nil
+}
+
+// overlapMenu: named Create calls; each hands its files' Open and first Read to yield.
+func overlapMenu() (names []string, calls []func(yield func()) string) {
+	add := func(name, mod, ver string, files ...memfile.File) {
+		names = append(names, name)
+		calls = append(calls, func(y func()) string {
+			var zf []modzip.File
+			for i, f := range files {
+				zf = append(zf, yieldFile{f, y, i == len(files)-1 || len(f.Data) > 1000})
+			}
+			var buf bytes.Buffer
+			err := modzip.Create(&buf, module.Version{Path: mod, Version: ver}, zf)
+			sum := sha256.Sum256(buf.Bytes())
+			if err != nil {
+				return "err=" + err.Error()
+			}
+			return fmt.Sprintf("%d bytes sha256=%x", buf.Len(), sum[:8])
+		})
+	}
+	big := strings.Repeat("0123456789abcdef", 2500)
+	gm := "module example.com/m\n"
+	add("two-files", "example.com/m", "v1.0.0", memfile.Reg("go.mod", gm), memfile.Reg("a.go", "package a\n"))
+	add("three-files-v2", "example.com/m/v2", "v2.1.0", memfile.Reg("go.mod", "module example.com/m/v2\n"), memfile.Reg("sub/b.go", "package b\n"), memfile.Reg("LICENSE", "text"))
+	add("vendored-omitted", "example.com/m", "v1.0.0", memfile.Reg("a.go", "package a\n"), memfile.Reg("vendor/x/y.go", "package y\n"), memfile.Reg("vendor/modules.txt", "#\n"))
+	add("case-collision", "example.com/m", "v1.0.0", memfile.Reg("a.go", "x"), memfile.Reg("A.go", "y"))
+	add("big-file", "example.com/m", "v1.0.0", memfile.Reg("go.mod", gm), memfile.Reg("data.bin", big))
+	add("open-error", "example.com/m", "v1.0.0", memfile.Reg("a.go", "x"), memfile.File{P: "b.go", Data: []byte("y"), Declared: -1, OpenErr: fmt.Errorf("injected open error")}, memfile.Reg("c.go", "z"))
+	add("size-lie", "example.com/m", "v1.0.0", memfile.Reg("a.go", "x"), memfile.File{P: "b.go", Data: []byte("longer than declared"), Declared: 3})
+	return
+}
+
+// overlapPart explores every interleaving (at File.Open and each file's first Read) of every ordered pair of
+// Create calls and compares each archive with the one the call produces alone. only (replay) = "a|b".
+func overlapPart(r *fw.Run, only string) {
+	names, calls := overlapMenu()
+	if only != "" {
+		a, b, _ := strings.Cut(only, "|")
+		idx := func(n string) int {
+			for i, m := range names {
+				if m == n {
+					return i
+				}
+			}
+			return 0
+		}
+		names, calls = []string{names[idx(a)], names[idx(b)]}, []func(func()) string{calls[idx(a)], calls[idx(b)]}
+	}
+	l := fw.NewLocal()
+	defer r.Merge(l)
+	pairs, runs, capped := coop.Pairs(len(calls), func(i int, y func()) string { return calls[i](y) }, nil, func(i, j int, sched []int, what string) {
+		r.Violation(fmt.Sprintf("overlap:%s:%s", names[i], names[j]), fmt.Sprintf("Create %s overlapped with Create %s, interleaving %v: %s", names[i], names[j], sched, what), caseT{Size: "overlap", ModPath: names[i] + "|" + names[j]})
+	}, 20000)
+	if only == "" {
+		r.Bounds["overlapping_calls"] = fmt.Sprintf("%d ordered pairs of Create calls (%v), every interleaving at File.Open and first Read (cap 20000 per pair)", pairs, names)
+	}
+	if capped {
+		r.Cap("overlapping Create calls: 20000 interleavings per pair reached")
+	}
+	l.States += int64(pairs)
+	l.Execs += int64(runs)
+	l.Transitions += int64(runs)
+	l.Nontrivial += int64(runs)
+	l.Outcomes["overlap:interleavings"] += int64(runs)
 }
 
 func Replay(r *fw.Run, raw json.RawMessage) {
 	var c caseT
 	if err := json.Unmarshal(raw, &c); err != nil {
 		r.Violation("replay", err.Error(), nil)
+		return
+	}
+	if c.Size == "overlap" {
+		r.States.Add(1)
+		r.Sample(c)
+		overlapPart(r, c.ModPath)
 		return
 	}
 	var paths []string
@@ -379,7 +505,7 @@ func Replay(r *fw.Run, raw json.RawMessage) {
 	r.Transitions.Add(1)
 	r.Execs.Add(1)
 	r.Sample(c)
-	if msg, _ := one(r.Scratch(), paths, ms, gm, mv, c.Size); msg != "" {
+	if msg, _ := one(r.Scratch(), paths, ms, gm, mv, c.Size, c.Shape); msg != "" {
 		r.Violation(c.key(), msg, c)
 	}
 }
